@@ -147,7 +147,7 @@ theorem message_delivered (r0 : Rd) (s : Src) (cx : Ctx) (f0 : WFrame) (fs : Lis
   have hc : Common r0.skipCheck st r0.maxFrame (enter r0 f0.h) s1 :=
     ⟨by simp [enter, hext], by simp [enter, hu8], by simp [enter], by simp [enter], ht1, by rw [hb1]; exact hwt, b1, b2, b3⟩
   have hpl : plainOf (enter r0 f0.h) f0.wire = f0.plain := rfl
-  have hsync : Sync false r0.skipCheck st r0.maxFrame rest (enter r0 f0.h) s1 (dataPlain (f0 :: fs)) := by
+  have hsync : Sync false r0.skipCheck st r0.maxFrame rest (enter r0 f0.h) s1 (dataPlain (f0 :: fs)) fs := by
     have hrest := hm.rest
     by_cases hfin : f0.h.fin = true
     · simp only [hfin, if_true] at hrest
@@ -177,9 +177,9 @@ theorem message_delivered (r0 : Rd) (s : Src) (cx : Ctx) (f0 : WFrame) (fs : Lis
       refine Sync.mid _ s1 f0.wire fs hc ?_ (by simp [enter, hfin', st]) hrest
       exact ⟨by simp [enter], by simp [enter, hu8], hb1, by simp [enter, hm.ok0.len],
           by rw [hb1]; exact hwt, by simp [enter]; exact hm.ok0.mwf, ht1⟩
-  have key := reads_sync false r0.skipCheck st r0.maxFrame rest ks hpos _ s1 cx _ hsync
+  have key := reads_sync false r0.skipCheck st r0.maxFrame rest ks hpos _ s1 cx _ _ hsync
   have key' : ∃ out e r' s', reads (enter r0 f0.h) s1 cx ks = some (out, e, r', s', cx) ∧
-      ((e = none ∧ ∃ rem', dataPlain (f0 :: fs) = out ++ rem' ∧ Sync false r0.skipCheck st r0.maxFrame rest r' s' rem'
+      ((e = none ∧ ∃ rem' fs', dataPlain (f0 :: fs) = out ++ rem' ∧ Sync false r0.skipCheck st r0.maxFrame rest r' s' rem' fs'
           ∧ weight r' s' + ks.length ≤ weight (enter r0 f0.h) s1)
        ∨ (e = some .eof ∧ dataPlain (f0 :: fs) = out ∧ s'.bytes = rest ∧ Src.Tame s' ∧ Done st (enter r0 f0.h) r')) := by
     rcases key with h | ⟨_, _, _, _, _, _, _, _, _, hend⟩
@@ -187,7 +187,7 @@ theorem message_delivered (r0 : Rd) (s : Src) (cx : Ctx) (f0 : WFrame) (fs : Lis
     · exact absurd hend.opn (by decide)
   obtain ⟨out, e, r', s', hrd, hcase⟩ := key'
   refine ⟨enter r0 f0.h, s1, out, e, r', s', hnext, rfl, hrd, ?_, ?_, ?_, ?_⟩
-  · rcases hcase with ⟨_, rem', h1, _, _⟩ | ⟨_, h1, _⟩
+  · rcases hcase with ⟨_, rem', _, h1, _, _⟩ | ⟨_, h1, _⟩
     · exact ⟨rem', h1⟩
     · exact ⟨[], by rw [h1]; simp⟩
   · rcases hcase with ⟨h1, _⟩ | ⟨h1, _⟩
@@ -200,7 +200,7 @@ theorem message_delivered (r0 : Rd) (s : Src) (cx : Ctx) (f0 : WFrame) (fs : Lis
       · exact ⟨h4.has, h4.state, h4.op, h4.u8, h4.raw, h4.u8on, by simpa [enter] using h4.cfg⟩
       · rw [h4.state]; exact b4 hfr0
   · intro hlen
-    rcases hcase with ⟨_, _, _, _, hw⟩ | ⟨h1, _⟩
+    rcases hcase with ⟨_, _, _, _, _, hw⟩ | ⟨h1, _⟩
     · exfalso
       have : weight (enter r0 f0.h) s1 = mu s1 + 1 := by simp [weight, enter]
       omega
